@@ -1,6 +1,6 @@
 """C14 Every request completes exactly once (W-FULL)."""
 from dsim import seams
-from props.common import gen_strategy, quiet_logging, Violations
+from props.common import gen_stalls, gen_strategy, quiet_logging, Violations
 from worlds.reqpath import ReqPathRun, base_plan, RETRY, RETHROW, IGNORE, RETRY_NEXT_HOST
 
 ID = 'C14'
@@ -71,6 +71,8 @@ def gen_plan(rng, tier):
                         for _ in range(rng.choice([0, 1, 2]))]
     p.update(strategy=gen_strategy(rng), line_p=rng.choice([0, 0, 0.005, 0.03]), points=rng.choice([0, 2, 4]),
              time_jump_p=rng.choice([0, 0, 0.05]))
+    p.update(gen_stalls(rng, ['_set_result', '_set_final_result', '_set_final_exception', '_on_timeout', '_on_speculative_execute',
+                              'add_callback', 'add_errback', '_retry_task', 'send_request'], 0.25))
     return p
 
 
